@@ -208,7 +208,38 @@ def consume(db_text, texts):
     return missing, buf.replace('\x00', '')
 
 
-def check_default(s, how, style, schedule, case):
+def all_texts(db):
+    out = {}
+    for what in ('sql', 'dbml'):
+        for name, el in [('db', db)] + [(f'{n}#{k}', e) for k, (n, e) in enumerate(top_elements(db))]:
+            if el is db or has(el, what):
+                try:
+                    out[f'{name}.{what}'] = getattr(el, what)
+                except Exception as e:  # noqa
+                    out[f'{name}.{what}'] = f'<raised {type(e).__name__}>'
+    return out
+
+
+def check_later(s, how, style, db, script, case):
+    """"... leaves the model and later renderings unchanged": `db` has been rendered (any number of times, in any order),
+    an equal twin has not; the same in-place edits are then made to both, and every rendering of the two must agree."""
+    twin = get_db(s, how, style)
+    try:
+        s2 = C.edited(s, db, script)
+        s2b = C.edited(s, twin, script)
+    except Exception:  # noqa -- an edit the library refuses: nothing to compare
+        return []
+    if s2 is None or s2b is None:
+        return []
+    a, b = all_texts(db), all_texts(twin)
+    for k in a:
+        if a[k] != b.get(k):
+            return [Viol('c16:purity:later:' + k.split('.')[-1], f'after the same edits {k} of a database that had been rendered before differs from that of an equal '
+                         'database that had not:\n' + c02._first_diff(b.get(k, ''), a[k]), case)]
+    return []
+
+
+def check_default(s, how, style, schedule, case, script=()):
     viols = []
     db = get_db(s, how, style)
     els = top_elements(db)
@@ -247,19 +278,22 @@ def check_default(s, how, style, schedule, case):
             viols.append(Viol('c16:default:sql:missing', f'an element\'s .sql does not occur verbatim (once, outside other elements) in db.sql: {t[:120]!r}', case))
         if not missing and rest.strip('\n') != '':
             viols.append(Viol('c16:default:sql:extra', f'db.sql contains text that is no element\'s .sql: {rest.strip()[:120]!r}', case))
+    if script and not viols:
+        viols += check_later(s, how, style, db, script, case)
     return viols
 
 
 def evaluate(c, ctx: Ctx = None):
     s, style, handled_sql, handled_dbml, schedule = c[:5]
     ROUTE[0] = c[5] if len(c) > 5 else 'parse'
+    script = [tuple(e) for e in c[6]] if len(c) > 6 else []
     viols = []
     for how in ('parsed', 'built'):
         case = dict(schema=model.to_json(s), how=how, handled_sql=sorted(handled_sql), handled_dbml=sorted(handled_dbml),
-                    schedule=schedule, route=ROUTE[0])
+                    schedule=schedule, route=ROUTE[0], script=[list(e) for e in script])
         try:
             viols += check_custom(s, how, style, handled_sql, handled_dbml, schedule, dict(case, cfg='custom'))
-            viols += check_default(s, how, style, schedule, dict(case, cfg='default'))
+            viols += check_default(s, how, style, schedule, dict(case, cfg='default'), script)
         except Exception as e:  # noqa
             if how == 'built':
                 raise
@@ -282,7 +316,7 @@ def replay(case):
     sched = [tuple(x) for x in case['schedule']]
     if case.get('cfg') == 'custom':
         return check_custom(s, case['how'], Style(), set(case['handled_sql']), set(case['handled_dbml']), sched, case)
-    return check_default(s, case['how'], Style(), sched, case)
+    return check_default(s, case['how'], Style(), sched, case, [tuple(e) for e in case.get('script', [])])
 
 
 def shard(ctx: Ctx):
@@ -296,6 +330,6 @@ def shard(ctx: Ctx):
         hs = set(draw(st.lists(st.sampled_from(TYPE_NAMES), unique=True)))
         hd = set(draw(st.lists(st.sampled_from(TYPE_NAMES), unique=True)))
         sched = draw(st.lists(st.tuples(st.integers(0, 14), st.sampled_from(['sql', 'dbml'])), max_size=12))
-        return s, draw(gen.styles()), hs, hd, sched, draw(st.sampled_from(['parse', 'str', 'path', 'file']))
+        return s, draw(gen.styles()), hs, hd, sched, draw(st.sampled_from(['parse', 'str', 'path', 'file'])), draw(C.edit_scripts(3))
 
     hyp_run(ctx, 'configs', cases(), lambda c: evaluate(c, ctx), 60 if quick else 600)
